@@ -69,6 +69,8 @@ const T_ENC: &str = "{{ x | url_encode | vdump }}";
 const T_ENCDEC: &str = "{{ x | url_encode | url_decode | vdump }}";
 const T_DEC: &str = "{{ x | url_decode | vdump }}";
 const T_STRIP: &str = "{{ x | strip_html | vdump }}";
+/// a non-string input (the array from split): what strip_html hands on, printed, is still tag-free
+const T_STRIP_ARR: &str = "{{ x | split: 'a' | strip_html }}";
 
 #[derive(Clone, Copy, PartialEq, Eq, Debug)]
 enum Group {
@@ -589,6 +591,7 @@ struct Env {
     encdec: Template,
     dec: Template,
     strip: Template,
+    strip_arr: Template,
 }
 
 impl Env {
@@ -603,6 +606,7 @@ impl Env {
             encdec: t(T_ENCDEC),
             dec: t(T_DEC),
             strip: t(T_STRIP),
+            strip_arr: t(T_STRIP_ARR),
             parser: p,
         }
     }
@@ -638,8 +642,41 @@ fn evaluate(env: &Env, g: Group, x: &str) -> (Vec<Out>, Vec<Finding>, bool) {
         }
         Group::StripHtml => {
             let o = render(&env.strip, &d);
-            let f = check_strip(x, &o);
-            (vec![o], f, false)
+            let mut f = check_strip(x, &o);
+            let mut outs = vec![o];
+            if x.contains('a') {
+                let o2 = render(&env.strip_arr, &d);
+                match &o2 {
+                    Out::Ok(r) => {
+                        if r.find('<').map_or(false, |i| r[i..].contains('>')) {
+                            f.push(Finding {
+                                key: "strip_html:tag-survives".into(),
+                                what: "strip_html of an array input still prints a complete <...> tag".into(),
+                                template: T_STRIP_ARR,
+                                expected: json!("no '<' followed later by '>'"),
+                                observed: o2.summary(),
+                            });
+                        }
+                    }
+                    Out::Err(_) => {}
+                    Out::Panic(p) => f.push(Finding {
+                        key: p.key(),
+                        what: format!("strip_html of an array panicked at {}: {}", p.site(), p.msg),
+                        template: T_STRIP_ARR,
+                        expected: json!("no panic"),
+                        observed: o2.summary(),
+                    }),
+                    Out::BadUtf8(_) => f.push(Finding {
+                        key: "non-utf8-output".into(),
+                        what: "strip_html of an array produced output that is not UTF-8".into(),
+                        template: T_STRIP_ARR,
+                        expected: json!("UTF-8"),
+                        observed: o2.summary(),
+                    }),
+                }
+                outs.push(o2);
+            }
+            (outs, f, false)
         }
     }
 }
@@ -776,7 +813,7 @@ pub fn replay(j: &Json) -> bool {
         Group::Escape => &[T_ESCAPE],
         Group::EscapeOnce => &[T_ONCE, T_ONCE2],
         Group::Url => &[T_ENC, T_ENCDEC, T_DEC],
-        Group::StripHtml => &[T_STRIP],
+        Group::StripHtml => &[T_STRIP, T_STRIP_ARR],
     };
     for (t, o) in names.iter().zip(&outs) {
         println!("observed now : {t} -> {}", o.summary());
